@@ -17,7 +17,7 @@ def run(m, chk):
         "the limits comparison raising ValueError dominates the computation in ImmutableKnotVector.__or__/__and__ (GATE), and the result depends on both operands (DEP-MAY). "
         "That | is the coarsest common refinement is not decided beyond UNION-DEGREE (DESIGN §24)."
     )
-    chk.decides = ["UNION-DEGREE (U | V compares multiplicities written in the common degree max(p, q))", "COMMIT-LAST (a refused |= / &= leaves the receiver as it was)", "NEG-ZERO-SLICE", "PURE", "FRESH", "GATE(limits ⇒ ValueError)", "DEP-MAY both operands", 'BOTH-MULTS (multiplicities of both operands consulted)', 'MULT-KEEP', 'SAME-INTERVAL (the interval guard is an equality, not a one-sided containment)']
+    chk.decides = ["SELF-COMPARE (no atom of the interval test compares an end with itself)", "UNION-DEGREE (U | V compares multiplicities written in the common degree max(p, q))", "COMMIT-LAST (a refused |= / &= leaves the receiver as it was)", "NEG-ZERO-SLICE", "PURE", "FRESH", "GATE(limits ⇒ ValueError)", "DEP-MAY both operands", 'BOTH-MULTS (multiplicities of both operands consulted)', 'MULT-KEEP', 'SAME-INTERVAL (the interval guard is an equality, not a one-sided containment)']
     chk.not_decided = ["U|V is the coarsest common refinement (only the necessary condition UNION-DEGREE is decided)", "commutativity / idempotence as values"]
     for q in (KV + ".__or__", KV + ".__and__", IKV + ".__or__", IKV + ".__and__"):
         r.pure("PURE", q, ["self", "other"])
@@ -32,7 +32,17 @@ def run(m, chk):
         ctx = r.root(q)
         fi = ctx.fi
         guards = limits_guards(r, ctx, {("P", 0)}, {("P", 1)})
-        guards = [g for g in guards if "limits" in seg(g[0].ast)]
+        from .common import expand_locals
+
+        allg = r.raise_guards(ctx, ("ValueError",))
+        # no atom of the interval test compares a thing with itself (`umin != umin` for `umin != vmin`: one end is never compared)
+        for t_ in [g_[0] for g_ in allg if isinstance(g_[0].ast, ast.expr)]:
+            for c_ in ast.walk(t_.ast):
+                if isinstance(c_, ast.Compare) and len(c_.ops) == 1:
+                    same = seg(c_.left) == seg(c_.comparators[0])
+                    chk.ob("SELF-COMPARE", f"{q}: `{seg(c_, 40)}` compares two different things", not same, loc=r.loc(ctx, c_),
+                           detail="" if not same else f"{q}: `{seg(c_, 40)}` compares an end of one interval with itself: it is never true, so that end of the two intervals is not compared at all — knot vectors that share only the other end are merged instead of raising ValueError",
+                           func=q, construct="interval end compared with itself")
         chk.floor("GATE-LIMITS", f"limits guard in {q}", len(guards), 1)
         from .extra import same_interval
 
